@@ -181,9 +181,10 @@ type job struct {
 }
 
 type jobResult struct {
-	job job
-	out *interp.Outcome
-	dur time.Duration
+	job    job
+	out    *interp.Outcome
+	dur    time.Duration
+	capped bool
 }
 
 func cmdRun(args []string) int {
@@ -313,59 +314,116 @@ func cmdRun(args []string) int {
 	if *verbose {
 		fmt.Fprintf(os.Stderr, "gosym: loaded in %.1fs, %d jobs\n", loadDur.Seconds(), len(jobs))
 	}
-	// run jobs
+	// run jobs: a shared LIFO of (job, decision prefix) tasks, so that the paths of one large
+	// case are explored by all workers
 	results := make([]jobResult, len(jobs))
-	var wg sync.WaitGroup
-	ch := make(chan int)
-	nw := *workers
-	if nw > len(jobs) {
-		nw = len(jobs)
+	type task struct {
+		job    int
+		prefix []int64
 	}
-	var mu sync.Mutex
+	var (
+		mu     sync.Mutex
+		cond   = sync.NewCond(&mu)
+		stack  []task
+		active int
+		start  = make([]time.Time, len(jobs))
+	)
+	for i := len(jobs) - 1; i >= 0; i-- {
+		stack = append(stack, task{job: i})
+		results[i] = jobResult{job: jobs[i], out: &interp.Outcome{Stats: interp.NewPathStats()}}
+	}
+	nw := *workers
+	var wg sync.WaitGroup
 	for k := 0; k < nw; k++ {
 		wg.Add(1)
 		go func() {
 			defer wg.Done()
 			var w *interp.Worker
 			var wkey string
-			for idx := range ch {
-				j := jobs[idx]
-				cfg := baseCfg(j.h)
-				cfg.MapOrder = j.order
-				key := fmt.Sprintf("%s/%d", cfg.SolverBin, cfg.TimeoutMs)
-				if w == nil || wkey != key {
-					if w != nil {
-						w.Close()
-					}
-					var err error
-					w, err = interp.NewWorker(prog, cfg)
-					if err != nil {
-						mu.Lock()
-						machinery = append(machinery, "solver start: "+err.Error())
-						mu.Unlock()
-						continue
-					}
-					wkey = key
+			defer func() {
+				if w != nil {
+					w.Close()
 				}
-				w.Cfg = cfg
-				fn := prog.Func(pkgPath(j.h.Pkg), j.h.Fn)
-				t := time.Now()
-				out := w.Explore(fn, []interface{}{j.c})
-				results[idx] = jobResult{job: j, out: out, dur: time.Since(t)}
-				if *verbose {
-					fmt.Fprintf(os.Stderr, "  %s[%d] %s: paths=%d viol=%d inconcl=%d queries=%d %.2fs\n", j.h.Fn, j.c, j.label, out.Paths, len(out.Violations), len(out.Inconclusive), out.Solver.Queries, time.Since(t).Seconds())
+			}()
+			for {
+				mu.Lock()
+				for len(stack) == 0 && active > 0 {
+					cond.Wait()
 				}
-			}
-			if w != nil {
-				w.Close()
+				if len(stack) == 0 {
+					mu.Unlock()
+					cond.Broadcast()
+					return
+				}
+				t := stack[len(stack)-1]
+				stack = stack[:len(stack)-1]
+				active++
+				if start[t.job].IsZero() {
+					start[t.job] = time.Now()
+				}
+				r := &results[t.job]
+				skip := false
+				maxp := r.job.h.MaxPaths
+				if maxp == 0 {
+					maxp = 400000
+				}
+				if r.out.Paths >= maxp {
+					skip = true
+					if !r.capped {
+						r.capped = true
+						r.out.Inconclusive = append(r.out.Inconclusive, fmt.Sprintf("path limit %d reached", maxp))
+					}
+				}
+				mu.Unlock()
+				if !skip {
+					j := jobs[t.job]
+					cfg := baseCfg(j.h)
+					cfg.MapOrder = j.order
+					key := fmt.Sprintf("%s/%d", cfg.SolverBin, cfg.TimeoutMs)
+					if w == nil || wkey != key {
+						if w != nil {
+							w.Close()
+						}
+						var err error
+						w, err = interp.NewWorker(prog, cfg)
+						if err != nil {
+							mu.Lock()
+							machinery = append(machinery, "solver start: "+err.Error())
+							active--
+							mu.Unlock()
+							cond.Broadcast()
+							continue
+						}
+						wkey = key
+					}
+					w.Cfg = cfg
+					fn := prog.Func(pkgPath(j.h.Pkg), j.h.Fn)
+					pr := w.RunOne(fn, []interface{}{j.c}, t.prefix)
+					mu.Lock()
+					r.out.Paths++
+					r.out.Stats.Merge(pr.Stats)
+					r.out.Solver.Add(&pr.Solver)
+					r.out.Violations = append(r.out.Violations, pr.Violations...)
+					r.out.Inconclusive = append(r.out.Inconclusive, pr.Inconclusive...)
+					for _, p := range pr.Pending {
+						stack = append(stack, task{job: t.job, prefix: p})
+					}
+					r.dur = time.Since(start[t.job])
+					mu.Unlock()
+				}
+				mu.Lock()
+				active--
+				mu.Unlock()
+				cond.Broadcast()
 			}
 		}()
 	}
-	for i := range jobs {
-		ch <- i
-	}
-	close(ch)
 	wg.Wait()
+	if *verbose {
+		for _, r := range results {
+			fmt.Fprintf(os.Stderr, "  %s[%d] %s: paths=%d viol=%d inconcl=%d queries=%d %.2fs\n", r.job.h.Fn, r.job.c, r.job.label, r.out.Paths, len(r.out.Violations), len(r.out.Inconclusive), r.out.Solver.Queries, r.dur.Seconds())
+		}
+	}
 
 	// aggregate
 	total := interp.NewPathStats()
